@@ -1,16 +1,17 @@
 package main
 
 import (
-	"strconv"
 	"fmt"
 	"math/rand"
 	"sort"
+	"strconv"
 	"strings"
 	"time"
 
 	"github.com/tableauio/tableau/proto/tableaupb"
 	"github.com/tableauio/tableau/proto/tableaupb/internalpb"
 	"github.com/tableauio/tableau/verifhook"
+	"github.com/tableauio/tableau/xerrors"
 	"google.golang.org/protobuf/reflect/protoreflect"
 )
 
@@ -685,6 +686,62 @@ func init() {
 			emit("pg.errpos", encStr("protoconf"), encInfos(c17Infos), encBool(nested), encParts(names), encParts(types), strconv.Itoa(k))
 		}
 	})
+	// spec.C07.headerPosE2E: the same spoilt headers through the real GenProto on a CSV workbook (the positions the
+	// user reads: NameCellPos / TypeCellPos of the rendered error)
+	regStream("spec.C07.headerPosE2E", func(r *rand.Rand, n int, emit func(string, ...string)) {
+		for i := 0; i < n; i++ {
+			nested, names, types, k := genCorruptHeader(r)
+			emit("pg.e2epos", encStr("protoconf"), encInfos(c17Infos), encBool(nested), encParts(names), encParts(types), strconv.Itoa(k))
+		}
+	})
+	regImpl("pg.e2epos", func(a []string) string {
+		names, types := decParts(a[3]), decParts(a[4])
+		for _, t := range types {
+			if strings.Contains(t, ".") {
+				return "skip"
+			}
+		}
+		w := newWorkspace()
+		defer w.cleanup()
+		notes := make([]string, len(names))
+		w.writeCSVBook("", bookSpec{Name: "Book", Sheets: []sheetSpec{{Name: "HeroConf", Rows: [][]string{names, types, notes}, Meta: map[string]string{"Nested": map[bool]string{true: "true", false: "false"}[a[2] == "1"]}}}})
+		err := w.genProto(runOpts{})
+		if err == nil {
+			return "ok"
+		}
+		d := xerrors.NewDesc(err)
+		np, _ := d.GetValue(xerrors.KeyNameCellPos).(string)
+		tp, _ := d.GetValue(xerrors.KeyTypeCellPos).(string)
+		col := func(pos string, row string) (int, bool) {
+			if !strings.HasSuffix(pos, row) {
+				return 0, false
+			}
+			letters := strings.TrimSuffix(pos, row)
+			if letters == "" {
+				return 0, false
+			}
+			n := 0
+			for _, c := range letters {
+				if c < 'A' || c > 'Z' {
+					return 0, false
+				}
+				n = n*26 + int(c-'A'+1)
+			}
+			return n - 1, true
+		}
+		if np == "" && tp == "" {
+			return "ok" // not a header rejection: the header parser accepted, a later stage of protogen refused the workbook
+		}
+		c1, ok1 := col(np, "1")
+		c2, ok2 := col(tp, "2")
+		if !ok1 || !ok2 {
+			return "err ?"
+		}
+		if c1 != c2 {
+			return "err name-and-type-cells-differ"
+		}
+		return "err " + strconv.Itoa(c1)
+	})
 	regImpl("pg.errpos", func(a []string) string {
 		names, types := decParts(a[3]), decParts(a[4])
 		_, cur, err := verifhook.ParseHeader(mustStr(a[0]), c17Infos, names, types, a[2] == "1")
@@ -781,7 +838,52 @@ func fuzzMeta(r *rand.Rand, nested bool) map[string]string {
 func init() {
 	regStream("e2e.C17.nopanic", func(r *rand.Rand, n int, emit func(string, ...string)) {
 		for i := 0; i < n; i++ {
+			if i%16 == 7 {
+				// union value fields spanning several columns (cross:N, -1 = all the remaining ones) on optional sheets
+				emit("c17.cross", []string{"-1", "2", "3", "-1"}[r.Intn(4)], []string{"", "true"}[r.Intn(2)], strconv.Itoa(r.Intn(4)))
+				continue
+			}
 			emit("c17.fuzz", itoa(r.Int63n(1<<40)))
+		}
+	})
+	// c17.cross <cross count> <sheet Optional> <value cells present>: D47 (fixed): cross:-1 on an optional sheet never returned
+	regImpl("c17.cross", func(a []string) string {
+		w := newWorkspace()
+		nvals := int(mustInt(a[2]))
+		row := []string{"1", "AliasKey", "7"}
+		for k := 0; k < 3; k++ {
+			if k < nvals {
+				row = append(row, strconv.Itoa(10*(k+1)))
+			} else {
+				row = append(row, "")
+			}
+		}
+		w.writeCSVBook("", bookSpec{Name: "U", Sheets: []sheetSpec{
+			{Name: "Target", Meta: map[string]string{"Mode": "MODE_UNION_TYPE"}, Rows: [][]string{{"Name", "Alias", "Field1", "Field2"}, {"Key", "AliasKey", "ID\nuint32", "Values\n[]int32|{cross:" + a[0] + "}"}}},
+			{Name: "TaskConf", Meta: map[string]string{"Optional": a[1]}, Rows: [][]string{{"ID", "TargetType", "TargetField1", "TargetField2", "TargetField3", "TargetField4"},
+				{"map<uint32, Task>", "{.Target}enum<.Target.Type>", "union", "union", "union", "union"}, {"id", "type", "f1", "f2", "f3", "f4"}, row}},
+		}})
+		done := make(chan string, 1)
+		go func() {
+			defer func() {
+				if p := recover(); p != nil {
+					done <- "PANIC " + encStr(fmt.Sprint(p))
+				}
+			}()
+			ro := runOpts{}
+			if err := w.genProto(ro); err != nil {
+				done <- "returned"
+				return
+			}
+			_ = w.genConf(ro)
+			done <- "returned"
+		}()
+		select {
+		case s := <-done:
+			w.cleanup()
+			return s
+		case <-time.After(10 * time.Second):
+			return "HANG"
 		}
 	})
 	regImpl("c17.fuzz", func(a []string) string {
@@ -816,6 +918,29 @@ func init() {
 			{Name: "Item", Rows: [][]string{{"Name", "Type"}, {"ID", "int32"}, {"Num", "int32"}}, Meta: map[string]string{"Mode": "MODE_STRUCT_TYPE"}},
 		}})
 		w.writeCSVBook("", bookSpec{Name: "Fuzz", Sheets: []sheetSpec{{Name: "FuzzConf", Rows: rows, Meta: meta}}, BookMeta: bookMeta})
+		if r.Intn(3) == 0 {
+			// a sheet of several type blocks (the *_TYPE_MULTI modes): a block = name row, header row, member rows, blank
+			// row; the name row is varied (name in the first cell with or without a note, indented, alone, blank)
+			mode := []string{"MODE_ENUM_TYPE_MULTI", "MODE_STRUCT_TYPE_MULTI", "MODE_UNION_TYPE_MULTI"}[r.Intn(3)]
+			var trows [][]string
+			for b := 0; b < 1+r.Intn(3); b++ {
+				name := "T" + strconv.Itoa(b) + []string{"Kind", "Type", "Target"}[r.Intn(3)]
+				nameRow := [][]string{{name, "note"}, {name}, {"", name}, {"", "", name}, {name, ""}, {"", ""}, {" " + name}, {"", name, "note"}}[r.Intn(8)]
+				trows = append(trows, nameRow)
+				switch mode {
+				case "MODE_ENUM_TYPE_MULTI":
+					trows = append(trows, []string{"Number", "Name", "Alias"}, []string{"1", "K" + strconv.Itoa(b) + "_A", "A"}, []string{"2", "K" + strconv.Itoa(b) + "_B", "B"})
+				case "MODE_STRUCT_TYPE_MULTI":
+					trows = append(trows, []string{"Name", "Type"}, []string{"ID", "uint32"}, []string{"Num", fuzzJunk[r.Intn(len(fuzzJunk))]})
+				default:
+					trows = append(trows, []string{"Name", "Alias", "Field1", "Field2"}, []string{"Pvp", "AliasPvp", "ID\nuint32", "Dmg\nint64"}, []string{"Pve", "AliasPve", "Hero\n[]uint32", ""})
+				}
+				for k := r.Intn(3); k > 0; k-- {
+					trows = append(trows, []string{"", ""})
+				}
+			}
+			w.writeCSVBook("", bookSpec{Name: "Types", Sheets: []sheetSpec{{Name: "TypeBlocks", Rows: trows, Meta: map[string]string{"Mode": mode}}}})
+		}
 		done := make(chan string, 1)
 		go func() {
 			defer func() {
